@@ -14,7 +14,7 @@ pub struct C19;
 pub fn gen_c19_case(g: &mut G) -> Value {
     let cfg = if g.chance(2, 3) { gs::Cfg::faithful() } else { gs::Cfg::wide() };
     let doc = gs::document(g, &cfg);
-    let settings = settings(g, &doc, false);
+    let settings = settings(g, &doc, true);
     let case = Case { settings, history: history(g, &doc), ..Default::default() };
     gen::to_value(&case)
 }
@@ -146,6 +146,9 @@ impl Property for C19 {
         let mut seen = std::collections::BTreeSet::new();
         j.violations.retain(|v| seen.insert(v.symptom.clone()));
         Ok(j)
+    }
+    fn in_domain(&self, case: &Value) -> bool {
+        case_settings_in_domain(case)
     }
     fn predicate(&self, name: &str, case: &Value, v: &Violation) -> bool {
         super::predicates::check(name, case, v)
